@@ -22,6 +22,8 @@ val compOpp : comparison -> comparison
 
 val add : nat -> nat -> nat
 
+val mul : nat -> nat -> nat
+
 val sub : nat -> nat -> nat
 
 module Nat :
@@ -32,6 +34,8 @@ module Nat :
 
   val ltb : nat -> nat -> bool
  end
+
+val hd : 'a1 -> 'a1 list -> 'a1
 
 val nth : nat -> 'a1 list -> 'a1 -> 'a1
 
@@ -51,6 +55,10 @@ val combine : 'a1 list -> 'a2 list -> ('a1 * 'a2) list
 
 val firstn : nat -> 'a1 list -> 'a1 list
 
+val skipn : nat -> 'a1 list -> 'a1 list
+
+val seq : nat -> nat -> nat list
+
 val repeat : 'a1 -> nat -> 'a1 list
 
 type positive =
@@ -65,6 +73,14 @@ type z =
 
 module Pos :
  sig
+  type mask =
+  | IsNul
+  | IsPos of positive
+  | IsNeg
+ end
+
+module Coq_Pos :
+ sig
   val succ : positive -> positive
 
   val add : positive -> positive -> positive
@@ -73,11 +89,34 @@ module Pos :
 
   val pred_double : positive -> positive
 
+  type mask = Pos.mask =
+  | IsNul
+  | IsPos of positive
+  | IsNeg
+
+  val succ_double_mask : mask -> mask
+
+  val double_mask : mask -> mask
+
+  val double_pred_mask : positive -> mask
+
+  val sub_mask : positive -> positive -> mask
+
+  val sub_mask_carry : positive -> positive -> mask
+
+  val sub : positive -> positive -> positive
+
   val mul : positive -> positive -> positive
+
+  val size_nat : positive -> nat
 
   val compare_cont : comparison -> positive -> positive -> comparison
 
   val compare : positive -> positive -> comparison
+
+  val ggcdn : nat -> positive -> positive -> positive * (positive * positive)
+
+  val ggcd : positive -> positive -> positive * (positive * positive)
 
   val iter_op : ('a1 -> 'a1 -> 'a1) -> positive -> 'a1 -> 'a1
 
@@ -104,12 +143,36 @@ module Z :
 
   val compare : z -> z -> comparison
 
+  val sgn : z -> z
+
+  val leb : z -> z -> bool
+
   val ltb : z -> z -> bool
+
+  val abs : z -> z
 
   val to_nat : z -> nat
 
   val of_nat : nat -> z
+
+  val to_pos : z -> positive
+
+  val ggcd : z -> z -> z * (z * z)
  end
+
+type q = { qnum : z; qden : positive }
+
+val qle_bool : q -> q -> bool
+
+val qplus : q -> q -> q
+
+val qmult : q -> q -> q
+
+val qopp : q -> q
+
+val qminus : q -> q -> q
+
+val qred : q -> q
 
 type sx =
 | SZ of z
@@ -127,6 +190,10 @@ val opt_all : 'a1 option list -> 'a1 list option
 
 val dlist : (sx -> 'a1 option) -> sx -> 'a1 list option
 
+val dq : sx -> q option
+
+val dopt : (sx -> 'a1 option) -> sx -> 'a1 option option
+
 val ez : z -> sx
 
 val enat : nat -> sx
@@ -134,6 +201,8 @@ val enat : nat -> sx
 val ebool : bool -> sx
 
 val elist : ('a1 -> sx) -> 'a1 list -> sx
+
+val eq_ : q -> sx
 
 val eopt : ('a1 -> sx) -> 'a1 option -> sx
 
@@ -218,11 +287,207 @@ type 'r iter_out =
 
 val iter_next : 'a1 store -> iter -> iter * 'a1 iter_out
 
+val qabs : q -> q
+
+type ebound = q option
+
+type row = q list
+
+type matrix = row list
+
+val map2 : ('a1 -> 'a2 -> 'a3) -> 'a1 list -> 'a2 list -> 'a3 list
+
+val tabulate : nat -> (nat -> 'a1) -> 'a1 list
+
+val vadd : row -> row -> row
+
+val vsub : row -> row -> row
+
+val vscale : q -> row -> row
+
+type bentry = q option list option
+
+val process_entry : bentry -> (ebound * ebound) result
+
+val process_entries : bentry list -> (ebound list * ebound list) result
+
+val process_bounds :
+  bentry list option -> nat -> (ebound list * ebound list) result
+
+val qmax : q -> q -> q
+
+val qmin : q -> q -> q
+
+val clip_lo : q -> ebound -> q
+
+val clip_hi : q -> ebound -> q
+
+val clip : q -> ebound -> ebound -> q
+
+val clip_row : row -> ebound list -> ebound list -> row
+
+val clip_matrix : matrix -> ebound list -> ebound list -> matrix
+
+val oob : q -> ebound -> ebound -> bool
+
+val row_oob : row -> ebound list -> ebound list -> bool
+
+type ecfg = { e_batch : nat; e_dim : nat; e_x0 : row; e_init : matrix option;
+              e_lo : ebound list; e_hi : ebound list }
+
+val sample_elites : matrix -> nat -> (nat -> nat) -> matrix result
+
+val parents_of : ecfg -> matrix -> nat -> (nat -> nat) -> matrix
+
+val draw_matrix : nat -> nat -> (nat -> nat -> q) -> matrix
+
+val gaussian_op : ebound list -> ebound list -> matrix -> matrix -> matrix
+
+val isoline_row : row -> row -> row -> q -> row
+
+val isoline_rows : matrix -> matrix -> matrix -> q list -> matrix
+
+val isoline_op :
+  ebound list -> ebound list -> matrix -> matrix -> matrix -> q list -> matrix
+
+val gaussian_ask :
+  ecfg -> matrix -> (nat -> nat) -> (nat -> nat -> q) -> matrix
+
+val isoline_ask :
+  ecfg -> matrix -> (nat -> nat) -> (nat -> nat -> q) -> (nat -> q) -> matrix
+
+type operator =
+| OpGaussian
+| OpIsoLine
+
+val parent_type : operator -> nat
+
+val ga_ask :
+  ecfg -> operator -> matrix -> (nat -> nat) -> (nat -> nat -> q) -> (nat ->
+  q) -> matrix
+
+val dqd_line_rows : matrix -> matrix -> matrix -> q list -> matrix
+
+val go_ask_dqd :
+  ecfg -> bool -> matrix -> (nat -> nat) -> (nat -> nat -> q) -> (nat -> q)
+  -> matrix
+
+val lincomb : row -> q list -> matrix -> row
+
+val zero_row : nat -> row
+
+val go_coeffs : nat -> nat -> (nat -> nat -> q) -> matrix
+
+val go_ask :
+  ecfg -> bool -> matrix -> matrix -> matrix list option -> q -> nat -> (nat
+  -> nat -> q) -> matrix result
+
+val gae_ask : row -> matrix -> matrix -> matrix
+
+type rs_result =
+| RsDone of matrix * nat list * nat
+| RsNeed of nat
+| RsFuel
+
+val write_slots :
+  (row * nat) list -> nat list -> (row * nat) list -> (row * nat) list
+
+val still_oob : ebound list -> ebound list -> nat list -> matrix -> nat list
+
+val resample :
+  nat -> ebound list -> ebound list -> matrix -> nat -> (row * nat) list ->
+  nat list -> rs_result
+
+val es_ask : nat -> ebound list -> ebound list -> nat -> matrix -> rs_result
+
+type dt =
+| F32
+| F64
+
+val promote : dt -> dt -> dt
+
+val astype : dt -> dt -> dt
+
+type es_kind =
+| CmaEs
+| SepCmaEs
+| LmMaEs
+| OpenAiEs
+| PyCmaEs
+
+type akind =
+| KGaussian of bool
+| KIsoLine of bool
+| KGA of operator * bool
+| KES of es_kind
+| KGoDqd of bool * bool
+| KGoAsk of bool * bool
+| KGaeDqd
+| KGaeAsk of es_kind
+
+val bounds_dt : bool -> dt -> dt -> dt
+
+val cast_out : bool -> dt -> dt -> dt
+
+val es_out_dtype : es_kind -> dt -> dt
+
+val out_dtype : bool -> akind -> dt -> dt -> dt -> dt
+
+type ask_call =
+| AGaussian of ecfg * matrix * (nat -> nat) * (nat -> nat -> q)
+| AIsoLine of ecfg * matrix * (nat -> nat) * (nat -> nat -> q) * (nat -> q)
+| AGA of ecfg * operator * matrix * (nat -> nat) * (nat -> nat -> q)
+   * (nat -> q)
+| AGoDqd of ecfg * bool * matrix * (nat -> nat) * (nat -> nat -> q)
+   * (nat -> q)
+| AGoAsk of ecfg * bool * matrix * matrix * matrix list option * q * 
+   nat * (nat -> nat -> q)
+
+val run_ask : ask_call -> matrix result
+
+val err_code8 : err -> z
+
+val drow : sx -> row option
+
+val dmatrix : sx -> matrix option
+
+val dbound : sx -> ebound option
+
+val dbentry : sx -> bentry option
+
+val erow : row -> sx
+
+val ematrix : matrix -> sx
+
+val ebounds : ebound list -> sx
+
+val fn1 : q list -> nat -> q
+
+val fn2 : matrix -> nat -> nat -> q
+
+val fnn : nat list -> nat -> nat
+
+val dcfg : sx -> ecfg option
+
+val des : sx -> es_kind option
+
+val dop : sx -> operator option
+
+val ddt : sx -> dt option
+
+val edt : dt -> sx
+
+val dakind : sx -> akind option
+
+val dcall : sx -> ask_call option
+
+val run_C08 : sx -> sx
+
 val err_code : err -> z
 
 val eres : ('a1 -> sx) -> 'a1 result -> sx
 
-val erow : z option -> sx
+val erow0 : z option -> sx
 
 type st = { s_store : z store; s_iters : iter list }
 
